@@ -69,6 +69,7 @@ class BuildMachine(Machine):
             p_blank=w.choice([0.0, 0.1]),
             overlimit=w.random() < 0.15,
             both_platforms=w.random() < 0.4,
+            versions=w.random() < 0.4,
             max_lines=w.choice([3, 8, 15]),
             names=w.random() < 0.5,
             p_group=0.1, p_ncw=0.15, p_multi=0.3, p_related=0.3, p_heading=0.1, p_remark=0.15,
@@ -119,7 +120,9 @@ class BuildMachine(Machine):
                          "0.0.0.255", "permit"], w.randint(0, 4))
         return " ".join([first, *rest])
 
-    def _acl_body(self, w, platform, max_ncwb):
+    V15_UNKNOWN = ("msrpc", "onep-plain", "onep-tls", "ripv6")
+
+    def _acl_body(self, w, platform, max_ncwb, version="0"):
         cfg = self.cfg
         lines, specs = gen.gen_acl_lines(w, cfg, platform, "0")
         mine = self._pool.setdefault(platform, [])
@@ -144,6 +147,9 @@ class BuildMachine(Machine):
             if spec is not None and any(a[0] == "wild" and gen.ncw_bits(a[2]) > max_ncwb
                                         for a in (spec["src"], spec["dst"])):
                 body.append(["overlimit", ln])
+                continue
+            if version == "15.2" and any(tok in self.V15_UNKNOWN for tok in ln.split()):
+                body.append(["invalid", ln])  # a port name IOS 15 does not know: refused there
                 continue
             r = w.random()
             if r < cfg["p_invalid"]:
@@ -208,31 +214,44 @@ class BuildMachine(Machine):
         platform = cfg["platform"]
         if cfg.get("both_platforms") and s.random() < 0.5:
             platform = "nxos" if platform == "ios" else "ios"
+        version = "0"
+        if cfg.get("versions") and platform == "ios" and s.random() < 0.5:
+            version = "15.2"
         target = s.choice(["Acl", "Acl", "Acl", "AceGroup", "AceGroup", "AddrGroup", "AddrGroup",
                            "AddrGroupItems"])
         via = "ctor"
         max_ncwb = w.choice([0, 1, 2, 3]) if cfg["overlimit"] else 16
-        key = f"{target}:{platform}"
+        key = f"{target}:{platform}:{version}"
+        flip_from = f"{target}:{'nxos' if platform == 'ios' else 'ios'}:0"
+        if target in ("Acl", "AceGroup") and version == "0" and flip_from in self.live \
+                and s.random() < 0.25:
+            # a live object of the other platform is converted, then given text of this platform
+            lim = self.live_ncwb.get(flip_from, 16)
+            body = self._acl_body(w, platform, lim, version)
+            return dict(op="build", target=target, via="flip_setter", platform=platform,
+                        version=version, lines=body, fail_at=None, fault_mode="raise",
+                        max_ncwb=lim)
         if key in self.live and s.random() < 0.4:
             via = "setter"
             max_ncwb = self.live_ncwb.get(key, 16)
             if key in self.live_body and s.random() < 0.35:
                 # the text the object was built from, assigned again after an in-place change
                 return dict(op="build", target=target, via="setter_same", platform=platform,
-                            lines=self.live_body[key], fail_at=None, fault_mode="raise",
+                            version=version, lines=self.live_body[key], fail_at=None,
+                            fault_mode="raise",
                             max_ncwb=max_ncwb, mutate=s.choice(["pop", "reverse", "append",
                                                                 "seq", "clear"]))
         if target in ("AddrGroup", "AddrGroupItems"):
             body = self._ag_body(w, platform)
         else:
-            body = self._acl_body(w, platform, max_ncwb)
+            body = self._acl_body(w, platform, max_ncwb, version)
         fail_at = None
         if cfg["faults"] and f.random() < 0.7:
             n_inv = sum(1 for kind, _ in body if kind == "invalid") or 1
             fail_at = f.randint(1, n_inv + 1)
-        return dict(op="build", target=target, via=via, platform=platform, lines=body,
-                    fail_at=fail_at, fault_mode=f.choice(["raise", "raise", "detach"]),
-                    max_ncwb=max_ncwb)
+        return dict(op="build", target=target, via=via, platform=platform, version=version,
+                    lines=body, fail_at=fail_at,
+                    fault_mode=f.choice(["raise", "raise", "detach"]), max_ncwb=max_ncwb)
 
     # ------------------------------------------------------------- oracle
     def _fail(self, oracle, msg, **disc):
@@ -271,7 +290,7 @@ class BuildMachine(Machine):
             self.probes["sink_error_swallowed"] += 1
         self._walk(op, body, obj, recs)
         if target in ("Acl", "AceGroup", "AddrGroup"):
-            key = f"{target}:{platform}"
+            key = f"{target}:{platform}:{op.get('version', '0')}"
             self.live[key] = obj
             self.live_body[key] = [[k, t] for k, t in op["lines"]]
             if via == "ctor":
@@ -281,7 +300,21 @@ class BuildMachine(Machine):
     def _construct(self, op, body):
         target, platform, via = op["target"], op["platform"], op["via"]
         texts = [t for _, t in body]
-        key = f"{target}:{platform}"
+        version = op.get("version", "0")
+        key = f"{target}:{platform}:{version}"
+        if via == "flip_setter":
+            other = f"{target}:{'nxos' if platform == 'ios' else 'ios'}:0"
+            obj = self.live.pop(other, None)
+            via = "ctor"
+            if obj is not None:
+                try:
+                    obj.platform = platform
+                    self.live[key] = obj
+                    self.live_ncwb[key] = self.live_ncwb.pop(other, 16)
+                    via = "setter"
+                    self.probes["setter_after_flip"] += 1
+                except DOCUMENTED:
+                    pass  # e.g. a multi-port entry cannot go to nxos: the object is dropped
         if via in ("setter", "setter_same") and key not in self.live:
             via = "ctor"  # ops are total: without a live object the text is simply constructed
         if via == "setter_same" and key in self.live:
@@ -308,14 +341,14 @@ class BuildMachine(Machine):
                 obj = self.live[key]
                 obj.line = text
                 return obj
-            return Acl(text, platform=platform, max_ncwb=op["max_ncwb"])
+            return Acl(text, platform=platform, version=version, max_ncwb=op["max_ncwb"])
         if target == "AceGroup":
             text = "\n".join(texts)
             if via == "setter":
                 obj = self.live[key]
                 obj.line = text
                 return obj
-            return AceGroup(text, platform=platform, max_ncwb=op["max_ncwb"])
+            return AceGroup(text, platform=platform, version=version, max_ncwb=op["max_ncwb"])
         head = "object-group ip address AG1" if platform == "nxos" else "object-group network AG1"
         if target == "AddrGroup":
             text = "\n".join([head, *["  " + t for t in texts]])
